@@ -26,8 +26,9 @@ static char *menu[] = {
 	"+1s/a/b/",		/* 10: makes the next line stop matching */
 	"$d",			/* 11: deletes behind (or at the end of) the range */
 	"s/^/V/|$d",		/* 12 */
+	".,+1g/2/s/^/W/",	/* 13: nested global with a range of its own */
 };
-#define NMENU 13
+#define NMENU 14
 struct ml { int id; char t[12]; };
 static struct ml L[NL * 2 + 40];
 static int ln;
@@ -58,6 +59,11 @@ static int mrun(int m, int c)
 	case 10: if (c + 1 >= ln) return 1; msub(c + 1, 'a', 'b'); return 0;
 	case 11: mdel(ln - 1); return 0;
 	case 12: mprefix(c, 'V'); mdel(ln - 1); return 0;
+	case 13:
+		if (c + 1 >= ln) return 1;
+		if (strchr(L[c].t, '2')) mprefix(c, 'W');
+		if (strchr(L[c + 1].t, '2')) mprefix(c + 1, 'W');
+		return 0;
 	}
 	return 1;
 }
@@ -96,7 +102,7 @@ void harness(void)
 	beg = symx_conc(beg);
 	end = symx_conc(end);
 #endif
-	not = symx_conc(symx_u8("not") & 1);
+	not = symx_conc(symx_u8("not") % 3);	/* g, v, g! */
 	m = symx_u8("cmd");
 	symx_assume(m < NMENU);
 #ifdef BIG
@@ -105,7 +111,7 @@ void harness(void)
 	m = symx_conc(m);
 	for (i = 0; i < 2 * NL && env_in_len + 8 < ENV_INSZ; i++)
 		exh_input("N\n.\n");
-	snprintf(cmd, sizeof(cmd), "%d,%d%s/a/%s", beg, end, not ? "v" : "g", menu[m]);
+	snprintf(cmd, sizeof(cmd), "%d,%d%s/a/%s", beg, end, not == 1 ? "v" : not == 2 ? "g!" : "g", menu[m]);
 	symx_observe_mem("cmd", cmd, strlen(cmd) + 1);
 	symx_observe_mem("text", text, n + 1);
 	orig = exh_text();
